@@ -41,7 +41,7 @@ class AppRun:
                     return
                 if spec.get("raise_exc") == "KeyboardInterrupt":
                     raise KeyboardInterrupt()
-                raise RuntimeError("boom from %s" % name)
+                raise EXC_KINDS[spec.get("raise_exc") or "RuntimeError"](name)
         f.__name__ = name
         return f
 
@@ -143,6 +143,38 @@ class AppRun:
 
     def live_threads(self):
         return [t for t in self.sched.threads[1:] if t.state != "done" and t.name != "closer"]
+
+
+class _AppError(Exception):
+    """an application-defined exception without arguments"""
+
+
+def _lib_exc(name):
+    return getattr(lib.websocket, name)
+
+
+# what a user callback may raise: name -> factory(callback name) -> exception instance
+EXC_KINDS = {
+    "RuntimeError": lambda n: RuntimeError("boom from %s" % n),
+    "TypeError": lambda n: TypeError("unsupported operand type(s) for +: 'NoneType' and 'int'"),
+    "FileNotFoundError": lambda n: FileNotFoundError(2, "No such file or directory"),
+    "KeyError-int": lambda n: KeyError(5),
+    "ValueError-tuple": lambda n: ValueError((1, "two")),
+    "AppError-noargs": lambda n: _AppError(),
+    "UnicodeDecodeError": lambda n: UnicodeDecodeError("utf-8", b"\xff", 0, 1, "invalid start byte"),
+    "StopIteration": lambda n: StopIteration(),
+    "AssertionError": lambda n: AssertionError(),
+    "WebSocketException": lambda n: _lib_exc("WebSocketException")("raised by the application in %s" % n),
+    "WebSocketConnectionClosedException": lambda n: _lib_exc("WebSocketConnectionClosedException")("raised by the application in %s" % n),
+    "WebSocketTimeoutException": lambda n: _lib_exc("WebSocketTimeoutException")("raised by the application in %s" % n),
+    "ConnectionResetError": lambda n: ConnectionResetError(104, "Connection reset by peer (application's own socket)"),
+    "non-ascii-message": lambda n: RuntimeError("d\u00e9faillance \u2713 \n second line"),
+    "bytes-arg": lambda n: RuntimeError(b"\xff\xfe"),
+}
+
+
+def expected_exc(kind, name):
+    return _norm(EXC_KINDS[kind or "RuntimeError"](name))
 
 
 def _norm(a):
